@@ -5,10 +5,13 @@ Model/ComparePickle.lean — rich comparisons and `__hash__` of `BaseIP` (from `
 IPGlob, IPSet and EUI at value level, plus the one rule of CPython's reduce protocol that
 decides whether `__setstate__` is called (MODELLED RUNTIME).  Property C12.
 
-`IPGlob` is an `IPRange` for this model (its `key`/`sort_key` are inherited; its
-`__setstate__` recomputes the glob text from the restored bounds, which is C17's subject).
+`IPGlob` is an `IPRange` for the comparison part (its `key`/`sort_key` are inherited).  In the
+second half of the file (pickling with the states as Python values, `PyVal`) an IPGlob is a
+`Glob.GlobObj` whose `__setstate__` recomputes the glob text with the functions of Model/Glob.lean,
+and OUI / IAB and `IPSet.__reduce__` are modelled as well; that half is what the driver runs.
 -/
 import NetaddrVerif.Model.Compare
+import NetaddrVerif.Model.Glob
 namespace NV.Cmp
 open NV
 
@@ -177,5 +180,225 @@ def roundtripEui (how : How) (e : Eui) : R Eui := reconstruct how (getstateEui e
     module the object is rebuilt by calling `IPSet()` (`_cidrs = {}`) and then
     `__setstate__(state)` because a tuple state `is not None` — also when it is empty. -/
 def roundtripSet (_how : How) (s : List Net) : R (List Net) := setstateSet (getstateSet s)
+
+/-! ### pickling with the states as Python values
+
+The section above passes the truth value of the state as a constant.  Here the state of every
+class is an actual Python value, `bool(state)` is computed from it, `__setstate__` starts by
+unpacking that value, and IPGlob / OUI / IAB and the `__reduce__` of IPSet are modelled too.
+The driver runs THESE functions. -/
+
+/-- the Python values that occur in the pickled states of netaddr objects -/
+inductive PyVal where
+  | int (i : Int)
+  | str (s : List Char)
+  | none
+  | cls (id : Nat)                       -- a class object, pickled by reference (EUI dialect)
+  | tuple (xs : List PyVal)
+  | list (xs : List PyVal)
+  | dict (kvs : List (PyVal × PyVal))
+deriving Repr, Inhabited
+
+/-- `bool(x)`: an int iff non-zero, a str / tuple / list / dict iff non-empty, None never, a
+    class always -/
+def truthy : PyVal → Bool
+  | .int i => i != 0
+  | .str s => !s.isEmpty
+  | .none => false
+  | .cls _ => true
+  | .tuple xs => !xs.isEmpty
+  | .list xs => !xs.isEmpty
+  | .dict kvs => !kvs.isEmpty
+
+/-- `a, b, … = state` with `n` targets: a tuple or list of exactly `n` items unpacks; another
+    length is ValueError; an int / None / class is TypeError (not iterable).  str and dict are
+    iterable too but never occur as a state: outside the modelled domain (`.other`). -/
+def unpack (n : Nat) : PyVal → R (List PyVal)
+  | .tuple xs | .list xs => if xs.length = n then .ok xs else .error .value
+  | .int _ | .none | .cls _ => .error .type_
+  | .str _ | .dict _ => .error .other
+
+/-- a slot of a state that the methods compare / range-check as an int; the states written by
+    `__getstate__` only hold ints there (anything else: outside the modelled domain) -/
+def asInt : PyVal → R Int
+  | .int i => .ok i
+  | _ => .error .other
+
+/-- whether the reconstruction calls `__setstate__(state)` for a class WITHOUT its own
+    `__reduce__`: never for `None`; protocols 0 and 1 (`copyreg._reduce_ex`: `if dict:`) only for
+    a truthy state; protocols >= 2 and the copy module for every state that `is not None` -/
+def sendsState (how : How) (state : PyVal) : Bool :=
+  match state with
+  | .none => false
+  | st => passesState how (truthy st)
+
+/-- default reconstruction: `object.__new__(cls)` (no slot set: a blank object, `.error .other`)
+    and then `__setstate__(state)` if the state is sent -/
+def reconstructV {α : Type} (how : How) (state : PyVal) (setstate : PyVal → R α) : R α :=
+  if sendsState how state then setstate state else .error .other
+
+/-- `IPAddress.__getstate__`: `self._value, self._module.version` -/
+def getstateAddrV (a : Addr) : PyVal := .tuple [.int a.val, .int a.ver]
+/-- `IPAddress.__setstate__`: `value, version = state`, then as `setstateAddr` -/
+def setstateAddrV (st : PyVal) : R Addr := do
+  match ← unpack 2 st with
+  | [value, version] => setstateAddr (← asInt value, ← asInt version)
+  | _ => .error .other
+
+/-- `IPNetwork.__getstate__`: `self._value, self._prefixlen, self._module.version` -/
+def getstateNetV (n : Net) : PyVal := .tuple [.int n.val, .int n.plen, .int n.ver]
+/-- `IPNetwork.__setstate__`: `value, prefixlen, version = state`, then as `setstateNet` -/
+def setstateNetV (st : PyVal) : R Net := do
+  match ← unpack 3 st with
+  | [value, prefixlen, version] => setstateNet (← asInt value, ← asInt prefixlen, ← asInt version)
+  | _ => .error .other
+
+/-- `IPRange.__getstate__`: `self._start.value, self._end.value, self._module.version` -/
+def getstateRngV (r : Rng) : PyVal := .tuple [.int r.lo, .int r.hi, .int r.ver]
+/-- `IPRange.__setstate__`: `start, end, version = state`, then as `setstateRng` -/
+def setstateRngV (st : PyVal) : R Rng := do
+  match ← unpack 3 st with
+  | [start, end_, version] => setstateRng (← asInt start, ← asInt end_, ← asInt version)
+  | _ => .error .other
+
+/-- `EUI.__getstate__`: `self._value, self._module.version, self.dialect` (a class) -/
+def getstateEuiV (e : Eui) : PyVal := .tuple [.int e.val, .int e.ver, .cls e.dialect]
+/-- `EUI.__setstate__`: `value, version, dialect = state`, then as `setstateEui` -/
+def setstateEuiV (st : PyVal) : R Eui := do
+  match ← unpack 3 st with
+  | [value, version, .cls d] => setstateEui (← asInt value, ← asInt version, d)
+  | _ => .error .other
+
+def roundtripAddrV (how : How) (a : Addr) : R Addr := reconstructV how (getstateAddrV a) setstateAddrV
+def roundtripNetV (how : How) (n : Net) : R Net := reconstructV how (getstateNetV n) setstateNetV
+def roundtripRngV (how : How) (r : Rng) : R Rng := reconstructV how (getstateRngV r) setstateRngV
+def roundtripEuiV (how : How) (e : Eui) : R Eui := reconstructV how (getstateEuiV e) setstateEuiV
+
+/-! #### IPGlob -/
+
+/-- `IPGlob.__getstate__`: `super().__getstate__()` — the IPRange state; the glob text is NOT
+    part of the state -/
+def getstateGlobV (g : Glob.GlobObj) : PyVal := getstateRngV ⟨4, g.lo, g.hi⟩
+
+/-- `IPGlob.__setstate__`: `super().__setstate__(state)`, then
+    `self.glob = iprange_to_globs(self._start, self._end)[0]` — an assignment through the
+    property setter `_set_glob`, which re-derives the bounds from the text and the text from the
+    bounds once more -/
+def setstateGlobV (st : PyVal) : R Glob.GlobObj := do
+  let r ← setstateRngV st
+  match Glob.iprangeToGlobs ⟨r.ver, r.lo⟩ ⟨r.ver, r.hi⟩ with
+  | .ok (g :: _) => Glob.setGlob g
+  | .ok [] => .error .index
+  | .error e => .error e
+
+def roundtripGlobV (how : How) (g : Glob.GlobObj) : R Glob.GlobObj :=
+  reconstructV how (getstateGlobV g) setstateGlobV
+
+/-! #### OUI and IAB -/
+
+/-- an `OUI`: `_value` and `records` (a list of registration dicts — any Python value here) -/
+structure Oui where
+  val : Nat
+  records : PyVal
+deriving Repr, Inhabited
+
+/-- an `IAB`: `_value` and `record` (one registration dict) -/
+structure Iab where
+  val : Nat
+  record : PyVal
+deriving Repr, Inhabited
+
+/-- `OUI.__getstate__`: `self._value, self.records` -/
+def getstateOuiV (o : Oui) : PyVal := .tuple [.int o.val, o.records]
+/-- `OUI.__setstate__`: `self._value, self.records = state` (no check at all) -/
+def setstateOuiV (st : PyVal) : R Oui := do
+  match ← unpack 2 st with
+  | [value, records] => pure ⟨(← asInt value).toNat, records⟩
+  | _ => .error .other
+
+/-- `IAB.__getstate__`: `self._value, self.record` -/
+def getstateIabV (o : Iab) : PyVal := .tuple [.int o.val, o.record]
+/-- `IAB.__setstate__`: `self._value, self.record = state` -/
+def setstateIabV (st : PyVal) : R Iab := do
+  match ← unpack 2 st with
+  | [value, record] => pure ⟨(← asInt value).toNat, record⟩
+  | _ => .error .other
+
+def roundtripOuiV (how : How) (o : Oui) : R Oui := reconstructV how (getstateOuiV o) setstateOuiV
+def roundtripIabV (how : How) (o : Iab) : R Iab := reconstructV how (getstateIabV o) setstateIabV
+
+/-! #### IPSet: `__reduce__` -/
+
+/-- `IPSet.__getstate__`: `tuple([cidr.__getstate__() for cidr in self._cidrs])` -/
+def getstateSetV (s : List Net) : PyVal := .tuple (s.map getstateNetV)
+
+/-- one item of the IPSet state: `value, prefixlen, version` of the generator's `for` target -/
+def asTriple (it : PyVal) : R (Int × Int × Int) := do
+  match ← unpack 3 it with
+  | [value, prefixlen, version] => pure (← asInt value, ← asInt prefixlen, ← asInt version)
+  | _ => .error .other
+
+/-- `IPSet.__setstate__`: iterates the state (tuple or list; anything else: TypeError for a
+    non-iterable, outside the domain for str/dict) and hands the triples to `setstateSet` -/
+def setstateSetV : PyVal → R (List Net)
+  | .tuple items | .list items => do
+    let triples ← items.mapM asTriple
+    setstateSet triples
+  | .int _ | .none | .cls _ => .error .type_
+  | .str _ | .dict _ => .error .other
+
+/-- what `__reduce__` returns: `(callable, args, state)`; the callable is the class itself -/
+structure Reduce where
+  args : PyVal
+  state : PyVal
+deriving Repr
+
+/-- `IPSet.__reduce__`: `(self.__class__, (), self.__getstate__())` -/
+def reduceSet (s : List Net) : Reduce := ⟨.tuple [], getstateSetV s⟩
+
+/-- CPython, an object WITH its own `__reduce__` (MODELLED RUNTIME): `object.__reduce_ex__(proto)`
+    calls the overriding `__reduce__` under every protocol, and so does the copy module; the
+    rebuild is `y = callable(*args)` — here `IPSet()`: `_cidrs = {}`, an initialised empty set —
+    followed by `y.__setstate__(state)` whenever `state is not None` (pickle emits BUILD under
+    the same condition).  No truth test of the state anywhere: `how` does not matter. -/
+def rebuildSet (_how : How) (r : Reduce) : R (List Net) :=
+  match r.args with
+  | .tuple [] =>
+    let y : List Net := []
+    match r.state with
+    | .none => .ok y
+    | st => setstateSetV st
+  | _ => .error .other                   -- `IPSet(*args)` with arguments: not what `__reduce__` writes
+
+def roundtripSetV (how : How) (s : List Net) : R (List Net) := rebuildSet how (reduceSet s)
+
+/-- what the round trip of an IPSet WOULD be without `IPSet.__reduce__` (the class as it was
+    before fix F15): the default rule, which tests the truth of the state under protocols 0, 1 -/
+def roundtripSetDefault (how : How) (s : List Net) : R (List Net) :=
+  reconstructV how (getstateSetV s) setstateSetV
+
+/-! #### all picklable objects of the property in one type -/
+
+inductive PObj where
+  | addr (a : Addr)
+  | net (n : Net)
+  | rng (r : Rng)
+  | glob (g : Glob.GlobObj)
+  | set (s : List Net)
+  | eui (e : Eui)
+  | oui (o : Oui)
+  | iab (o : Iab)
+deriving Repr
+
+/-- `copy.copy(x)`, `copy.deepcopy(x)`, `pickle.loads(pickle.dumps(x, proto))` -/
+def roundtripV (how : How) : PObj → R PObj
+  | .addr a => (roundtripAddrV how a).map .addr
+  | .net n => (roundtripNetV how n).map .net
+  | .rng r => (roundtripRngV how r).map .rng
+  | .glob g => (roundtripGlobV how g).map .glob
+  | .set s => (roundtripSetV how s).map .set
+  | .eui e => (roundtripEuiV how e).map .eui
+  | .oui o => (roundtripOuiV how o).map .oui
+  | .iab o => (roundtripIabV how o).map .iab
 
 end NV.Cmp
